@@ -1,3 +1,4 @@
+import sys
 """Case generation, execution and independent oracles shared by C02 (valid partition + true modularity)
 and C07 (optimisers never return a partition worse than their start).
 
@@ -7,6 +8,7 @@ weights and dyadic gammas generated here) by plain O(n^2) loops, independent of 
 import numpy as np
 from fractions import Fraction as Fr
 from common import *  # noqa
+sys.path.insert(0, os.path.join(VERIF, 'translate')); import cores  # noqa: E402
 
 TOL = 1e-9
 GAMMAS = ['3/4', '1', '5/4']
@@ -246,6 +248,23 @@ def _move_lines(f):
     return f.__code__, out
 
 
+def _traced(tracer, run, t):
+    """run(budget) under sys.settrace(tracer).  The watchdog's SIGALRM can land inside the trace function; CPython then drops the
+    tracer for good, so a re-tried attempt would run untraced and leave a truncated record.  Hence: each attempt re-arms the tracer,
+    a timed-out attempt is repeated with 10x the budget, and an attempt is accepted only if the tracer was still armed at its end."""
+    st = out = rec = None
+    for budget in (t, 10 * t, 10 * t):
+        sys.settrace(tracer)
+        try:
+            st, out, rec = run(budget)
+        finally:
+            alive = sys.gettrace() is tracer
+            sys.settrace(None)
+        if st != 'timeout' and alive:
+            return st, out, rec
+    return ('timeout' if st == 'timeout' else 'trace-lost'), out, rec
+
+
 def trace_moves(bct, case, hierarchy=False, t=10.0):
     """Re-run the real routine under sys.settrace and list the moves it made as (sweep number, node, target slot).
     No change to /repo is needed: the tracer reads the locals at the statement that relabels the node."""
@@ -269,11 +288,8 @@ def trace_moves(bct, case, hierarchy=False, t=10.0):
     def tracer(frame, event, arg):
         return local if frame.f_code is code else None
 
-    sys.settrace(tracer)
-    try:
-        st, out, _ = invoke(bct, case, case['seed'], case.get('ci0'), hierarchy=hierarchy, t=t, new_rec=new_rec)
-    finally:
-        sys.settrace(None)
+    st, out, _ = _traced(tracer, lambda budget: invoke(bct, case, case['seed'], case.get('ci0'), hierarchy=hierarchy, t=budget,
+                                                       new_rec=new_rec, retry=0), t)
     return st, out, moves
 
 
@@ -312,11 +328,9 @@ def trace_spectral(bct, case, t=10.0):
             return make(len(dec) - 1)
         return None
 
-    sys.settrace(tracer)
-    try:
-        st, out, rec = invoke(bct, case, case['seed'], None, t=t)
-    finally:
-        sys.settrace(None)
+    st, out, rec = _traced(tracer, lambda budget: invoke(bct, case, case['seed'], None, t=budget, retry=0), t)
+    if st == 'trace-lost':
+        return 'ok', out, rec, None
     return st, out, rec, dec
 
 
@@ -1389,7 +1403,12 @@ def run_check(ck, preds):
                        'the move-by-move replay needs dyadic gamma, unscaled weights and double precision; other runs are judged by the predicates and the q correspondence',
                        'networks with more than %d nodes (size axis, up to n = 300) are judged by the exact Python oracles only; the Lean model replay and the q correspondence run for n <= %d' % (LARGE_N, LARGE_N),
                        'in-domain calls that hit the watchdog are re-tried once with 10x the budget, then counted; more than max(3, 0.5% of the cases) is a break']
+    # T-gen: modularity matrix and q of modularity_und/_dir interpreted, whole bodies of the Louvain routines source-pinned (translate/cores.py, family modq)
+    ck.cov['cores'] = cores.generate(families=['modq'])
+    for p_ in ck.cov['cores']['problems']:
+        ck.corr_break('core extractor (translate/cores.py)', p_)
     ok = ck.lean_gate(['BctVerif.Props.' + pid], extra_modules=['BctVerif.Model.Modularity'])
+    ck.lean_gate([], gen_modules=['BctVerif.Gen.CoresMod'])
     if ck.tier == 'thorough' and ok:
         ck.leanchecker(['BctVerif.Props.' + pid, 'BctVerif.Model.Modularity'])
     if ck.replay:
@@ -1469,6 +1488,8 @@ def run_check(ck, preds):
                 qlines.append(q_line(c, c['ci0'] if (c['routine'] in GIVEN and c.get('ci0') is not None) else ci)); qidx.append((n_, h))
         if c.get('start_origin'):
             ck.count('cross_refinement_cases'); ck.count('cross_from:' + c['start_origin'].rsplit(':', 1)[0])
+        if c['routine'] in ('modularity_und', 'modularity_dir') and c.get('ci0') is None and r.get('oracle') is None and r['status'] == 'ok':
+            ck.count('spectral_trace_lost')      # the watchdog hit the tracer three times: predicates only for this run
         if r.get('oracle') is not None and any(t is None for t in r['oracle']):
             ck.corr_break('Modularity spectral trace incomplete (a recur call did not return) for bct.' + c['routine'], {'case': c, 'oracle': r['oracle']})
         if r.get('oracle') is not None and all(t is not None for t in r['oracle']):
